@@ -410,7 +410,7 @@ func (r *rwRT) coverShape(fn *ssa.Function, pos, kind string, in0 *astInput) {
 	r.account(in)
 	construct := in0.desc
 	accepted := 0
-	var fieldBad, deepBad, lossBad, stateBad []string
+	var fieldBad, deepBad, lossBad, stateBad, dupBad, kindBad []string
 	var sampleAccept string
 	for _, o := range outs {
 		if o.Panicked {
@@ -624,6 +624,76 @@ func (r *rwRT) coverShape(fn *ssa.Function, pos, kind string, in0 *astInput) {
 				}
 			}
 		}
+		// ... and at most once: a part that is handed to the self-emitting recursion must not also stay reachable
+		// from a statement that is emitted (an extracted initialiser left in place runs twice). The output is
+		// printed from the final state of the nodes, so reachability is taken there.
+		{
+			count := map[string]int{}
+			for _, e := range o.St.Events {
+				if e.Kind != "call" || e.Fn == nil || !inRw(e.Fn) {
+					continue
+				}
+				switch e.Fn.Name() {
+				case "push", "pushReturn":
+					if len(e.Args) >= 2 {
+						for l := range reachSet(o.St, e.Args[1], in0.leaves) {
+							count[l]++
+						}
+					}
+				case "rewriteStmt", "rewriteStmts":
+					if idx, ok := rwVisitFns[e.Fn.Name()]; ok && idx < len(e.Args) {
+						for l := range reachSet(o.St, e.Args[idx], in0.leaves) {
+							count[l]++
+						}
+					}
+				}
+			}
+			// kind tags: push adds a statement that is not a return, so its tag must be one of the kinds after
+			// which an implicit Normal is considered (trivial / if / switch); and a statement tagged trivial
+			// must not be built from a rewritten list that may yield (the enclosing construct would stay native)
+			for _, e := range o.St.Events {
+				if e.Kind != "call" || e.Fn == nil || !inRw(e.Fn) || e.Fn.Name() != "push" || len(e.Args) != 3 {
+					continue
+				}
+				if _, isConst := e.Args[2].(Const); !isConst {
+					continue
+				}
+				tag := ""
+				for _, k := range []string{"kindTrival", "kindIf", "kindSwitch"} {
+					if sameAV(e.Args[2], r.kindConst(k)) {
+						tag = k
+					}
+				}
+				if tag == "" {
+					kindBad = append(kindBad, fmt.Sprintf("a statement that is not a return is pushed with kind %s: the implicit `return Normal()` decision (and the yield-freeness test) of the block no longer sees it as an ordinary / if / switch statement (a thunk ending in it lacks its return): %s", e.Args[2], pathSummary(o)))
+					continue
+				}
+				if tag == "kindTrival" {
+					names := map[string]bool{}
+					symNames(o.St, e.Args[1], names, map[int]bool{})
+					for rn := range retArg {
+						if !strings.HasPrefix(rn, "rewriteBlockStmt(") || trueLabels["mustNoYield("+rn+")"] {
+							continue
+						}
+						for n := range names {
+							if derivedFrom(n, rn) {
+								kindBad = append(kindBad, fmt.Sprintf("a statement built from the rewritten list %s, which may yield on this path, is pushed as trivial: the enclosing construct would be kept native and the yields in it would call the stub: %s", rn, pathSummary(o)))
+							}
+						}
+					}
+				}
+			}
+			var twice []string
+			for l, n := range count {
+				if n > 1 {
+					twice = append(twice, l)
+				}
+			}
+			sort.Strings(twice)
+			for _, l := range twice {
+				dupBad = append(dupBad, fmt.Sprintf("%s (%s) of the source statement reaches the output %d times on this path (it is handed to the recursion and is still part of an emitted statement: it would run twice): %s", l, in0.leaves[l].what, count[l], pathSummary(o)))
+			}
+		}
 		var ls []string
 		for l := range emitted {
 			ls = append(ls, l)
@@ -666,6 +736,20 @@ func (r *rwRT) coverShape(fn *ssa.Function, pos, kind string, in0 *astInput) {
 			c.ok("RW.NOLOSS", construct, pos, "on every accepting path each part of the source statement (initialiser, condition, post statement, tag, clause lists, bodies, operands) reaches the output: emitted, or rewritten by the recursion whose result is emitted")
 		} else {
 			c.bad("RW.NOLOSS", construct, pos, lossBad[0], lossBad...)
+		}
+	}
+	if len(in0.leaves) > 0 && accepted > 0 {
+		if len(dupBad) == 0 {
+			c.ok("RW.NOLOSS", construct+" (no part twice)", pos, "on every accepting path no part of the source statement reaches the output twice")
+		} else {
+			c.bad("RW.NOLOSS", construct+" (no part twice)", pos, dupBad[0], dupBad...)
+		}
+	}
+	if accepted > 0 {
+		if len(kindBad) == 0 {
+			c.ok("RW.BLOCKSTATE", construct+" (kind tags)", pos, "every statement pushed without a return carries one of the tags trivial / if / switch, and none tagged trivial is built from a rewritten list that may yield")
+		} else {
+			c.bad("RW.BLOCKSTATE", construct+" (kind tags)", pos, kindBad[0], kindBad...)
 		}
 	}
 	if accepted > 0 {
